@@ -2,8 +2,9 @@
    one step  o <- cc a  that reports the dependencies a (declared) and x/../h (kept as "h").
    Work 1 runs it and records; Work 2 on the resulting tree and log accepts the clean trace and
    rejects a dirty verdict. *)
-From Coq Require Import String List NArith ZArith.
-From N2 Require Import Model.All Proofs.SchedSpec Proofs.JointSpec Proofs.WorldSpec.
+From Coq Require Import String List NArith ZArith Lia.
+From N2 Require Import Model.All Proofs.SchedSpec Proofs.DbSpec Proofs.JointSpec Proofs.WorldSpec.
+From N2 Require Import Proofs.JointMain Proofs.JointVacuity.
 Import ListNotations.
 Local Open Scope string_scope.
 
@@ -54,3 +55,232 @@ Lemma ex_work2 :
   is_ok (replay ex_wg ex_w20 None (proj_w false None ex_tr2) 0) = true /\
   is_ok (replay ex_wg ex_w20 None (proj_w false None ex_tr2_dirty) 0) = false.
 Proof. vm_compute. repeat split; reflexivity. Qed.
+
+(* ------------------------------------------------------------------------------------ *)
+(* Non-vacuity of C03_null_build_invocation: a project with two chained steps
+
+     o <- cc a      (reports a, which is declared, and x/../h, kept as "h")
+     p <- ld o      (reports nothing)
+
+   Work 1 starts from an empty log, runs and records both steps and returns success; Work 2
+   on the tree and the log Work 1 left finds both clean.  Every hypothesis of the theorem holds
+   for these values ([nv_hyps]); the log after Work 1 holds two build records, so the premise
+   the theorem used to carry fails here ([nv_old_premise_fails]). *)
+
+Definition nv_g : graph :=
+  mkGraph [mkBuild [0] 1 0 0 [1] false None; mkBuild [1] 1 0 0 [2] false None]
+          [mkFile (bs "a") None [0]; mkFile (bs "o") (Some 0) [1]; mkFile (bs "p") (Some 1) []].
+Definition nv_wg : wgraph :=
+  mkWGraph [mkWBuild [bs "a"] 1 0 0 [bs "o"] (Some (bs "cc")) None;
+            mkWBuild [bs "o"] 1 0 0 [bs "p"] (Some (bs "ld")) None] [(bs "o", 0); (bs "p", 1)].
+Definition nv_cf := mkConfig nv_g 1 false.
+Definition nv_s : bstates :=
+  match want_targets nv_g (bs_new 2 [], []) [2] with Ok w => fst w | _ => bs_new 2 [] end.
+Definition nv_fs0 : fsmap := [(bs "h", (1%N, 1%N)); (bs "a", (1%N, 0%N))].
+Definition nv_wp : wstate := mkW [] [] [] [] [] signature.
+Definition nv_w0 : wstate :=
+  match load_state nv_wg nv_fs0 (ws_log nv_wp) with Ok w => w | _ => nv_wp end.
+Definition nv_h0 : N := 8172001350084429517%N.
+Definition nv_h1 : N := 17431866117220885716%N.
+Definition nv_pre1 : list jitem :=
+  [JUpdate (bs_counts nv_s); JPop 0; JVerdict 0 VDirty; JSet 0 Ready Queued; JSet 0 Queued Running;
+   JStart 0; JWrite (bs "o") (Some (2%N, 0%N)); JFinish 0 TSuccess (Some [bs "a"; bs "x/../h"]);
+   JRecord 0 nv_h0; JSet 0 Running Done; JSet 1 Want Ready; JUpdate (mkC6 0 1 0 0 1 0); JPop 1;
+   JVerdict 1 VDirty; JSet 1 Ready Queued; JSet 1 Queued Running;
+   JStart 1; JWrite (bs "p") (Some (3%N, 0%N)); JFinish 1 TSuccess None;
+   JRecord 1 nv_h1; JSet 1 Running Done].
+Definition nv_tr1 : list jitem := nv_pre1 ++ [JReturn (Some true)].
+Definition nv_r1 : rstate :=
+  match accepts nv_cf (run_init nv_s None) (proj_s nv_tr1) with Some r => r | None => run_init nv_s None end.
+Definition nv_w1 : wstate :=
+  match replay nv_wg nv_w0 None (proj_w false None nv_tr1) 0 with WOk w => w | _ => nv_w0 end.
+Definition nv_w20 : wstate :=
+  match load_state nv_wg (ws_fs nv_w1) (ws_log nv_w1) with Ok w => w | _ => nv_w0 end.
+Definition nv_tr2 : list jitem :=
+  [JUpdate (bs_counts nv_s); JPop 0; JVerdict 0 VClean; JSet 0 Ready Done; JSet 1 Want Ready;
+   JUpdate (mkC6 0 1 0 0 1 0); JPop 1; JVerdict 1 VClean; JSet 1 Ready Done; JReturn (Some true)].
+Definition nv_r2 : rstate :=
+  match accepts nv_cf (run_init nv_s None) (proj_s nv_tr2) with Some r => r | None => run_init nv_s None end.
+Definition nv_w2 : wstate :=
+  match replay nv_wg nv_w20 None (proj_w false None nv_tr2) 0 with WOk w => w | _ => nv_w20 end.
+
+Lemma nv_graph_wf : graph_wf nv_g.
+Proof.
+  split.
+  - intros f b H. destruct f as [|[|[|[|f]]]]; vm_compute in H; try discriminate H; injection H as <-;
+      cbn; lia.
+  - intros b f Lb H. cbn in Lb. destruct b as [|[|b]]; [| |lia]; cbn in H; destruct H as [<-|[]]; cbn; lia.
+Qed.
+
+Lemma nv_graphs_agree : graphs_agree nv_g nv_wg.
+Proof.
+  constructor.
+  - reflexivity.
+  - intros i Li. cbn in Li. destruct i as [|[|i]]; [| |lia]; cbn; repeat split; intro H; discriminate H.
+  - intros f1 f2 L1 L2 H. cbn in L1, L2.
+    destruct f1 as [|[|[|f1]]]; [| | |lia]; (destruct f2 as [|[|[|f2]]]; [| | |lia]);
+      try reflexivity; vm_compute in H; discriminate H.
+  - intros f Lf. cbn in Lf. destruct f as [|[|[|f]]]; [| | |lia]; vm_compute; reflexivity.
+  - intros f b. split.
+    + intro H. destruct f as [|[|[|[|f]]]]; vm_compute in H; try discriminate H; injection H as <-;
+        (split; [cbn; lia|cbn; now left]).
+    + intros (Lb & H). cbn in Lb. destruct b as [|[|b]]; [| |lia]; cbn in H; destruct H as [<-|[]];
+        reflexivity.
+Qed.
+
+Lemma nv_wanted : wanted nv_g (bs_new 2 []) nv_s.
+Proof.
+  apply (w_step nv_g (bs_new 2 []) (bs_new 2 []) nv_s [] [(0, Ready); (1, Want)] 2 false); [constructor|].
+  vm_compute. reflexivity.
+Qed.
+
+Lemma nv_records : work_records nv_wg nv_w1 nv_pre1 = [mkWr [bs "o"] [bs "h"] nv_h0; mkWr [bs "p"] [] nv_h1].
+Proof. vm_compute. reflexivity. Qed.
+
+Lemma nv_in_bounds : Forall in_bounds (work_records nv_wg nv_w1 nv_pre1).
+Proof.
+  rewrite nv_records.
+  repeat constructor; cbn [w_outs w_deps w_hash app In];
+    try (vm_compute; reflexivity);
+    intros n Hn; repeat (destruct Hn as [<-|Hn]; [vm_compute; reflexivity|]); destruct Hn.
+Qed.
+
+Lemma nv_table_small : table_small ([] ++ work_records nv_wg nv_w1 nv_pre1).
+Proof. cbn [app]. rewrite nv_records. vm_compute. reflexivity. Qed.
+
+Lemma nv_log_is1 : log_is nv_w1 ([mkWr [bs "o"] [bs "h"] nv_h0] ++ [mkWr [bs "p"] [] nv_h1]).
+Proof.
+  eexists. split; [vm_compute; reflexivity|]. vm_compute. reflexivity.
+Qed.
+
+(* the premise the theorem used to carry does not hold in this instance *)
+Lemma nv_old_premise_fails :
+  ~ (forall ws1, log_is nv_w1 ws1 -> Forall in_bounds ws1 /\ table_small ws1).
+Proof. exact (old_log_premise_unsatisfiable nv_w1 _ _ nv_log_is1). Qed.
+
+(* the hypotheses of C03_null_build_invocation, followed by [X] *)
+Definition null_build_hyps_and (X : Prop)
+         (cf cf2 : config) (decls decls2 : list (bytes * nat)) (wg : wgraph) (wp : wstate) (ws0 : list wr)
+         (fs0 : fsmap) (w0 : wstate) (s1 : bstates) (fl1 : option nat) (pre1 : list jitem) (r1 : rstate)
+         (w1 : wstate) (w20 : wstate) (s2 : bstates) (fl2 : option nat) (tr2 : list jitem) (r2 : rstate)
+         (w2 : wstate) : Prop :=
+  graph_wf (cf_graph cf) /\ graphs_agree (cf_graph cf) wg /\ cf_graph cf2 = cf_graph cf /\
+  cf_adopt cf = false /\
+  (forall b, b < length (g_builds (cf_graph cf)) -> wb_outs (get_wbuild wg b) <> []) /\
+  log_is wp ws0 /\ Forall in_bounds ws0 /\ table_small ws0 /\ load_state wg fs0 (ws_log wp) = Ok w0 /\
+  wanted (cf_graph cf) (bs_new (length (g_builds (cf_graph cf))) decls) s1 /\
+  jaccepted cf wg (run_init s1 fl1) w0 (pre1 ++ [JReturn (Some true)]) r1 w1 /\
+  writes_ok wg [] (pre1 ++ [JReturn (Some true)]) /\
+  (forall b d, get_state s1 b <> Unknown -> In d (disc_of w0 b) -> producer_of wg d = None) /\
+  (forall b t rep n d, In (JFinish b t rep) pre1 -> In n (reported_names rep) -> n <> [] ->
+                       canon n = Ok d -> producer_of wg d = None) /\
+  (forall b n, b < length (g_builds (cf_graph cf)) -> wb_cmdline (get_wbuild wg b) <> None ->
+               get_state s1 b <> Unknown ->
+               In n (wb_dirtying (get_wbuild wg b) ++ disc_of w1 b ++ wb_outs (get_wbuild wg b)) ->
+               fs_get (ws_fs w1) n <> None) /\
+  Forall in_bounds (work_records wg w1 pre1) /\ table_small (ws0 ++ work_records wg w1 pre1) /\
+  load_state wg (ws_fs w1) (ws_log w1) = Ok w20 /\
+  wanted (cf_graph cf) (bs_new (length (g_builds (cf_graph cf))) decls2) s2 /\
+  (forall b, get_state s2 b <> Unknown -> get_state s1 b <> Unknown) /\
+  jaccepted cf2 wg (run_init s2 fl2) w20 tr2 r2 w2 /\ writes_ok wg [] tr2 /\
+  X.
+
+(* ... they are the hypotheses of the theorem *)
+Lemma null_build_hyps_use X
+         (cf cf2 : config) (decls decls2 : list (bytes * nat)) (wg : wgraph) (wp : wstate) (ws0 : list wr)
+         (fs0 : fsmap) (w0 : wstate) (s1 : bstates) (fl1 : option nat) (pre1 : list jitem) (r1 : rstate)
+         (w1 : wstate) (w20 : wstate) (s2 : bstates) (fl2 : option nat) (tr2 : list jitem) (r2 : rstate)
+         (w2 : wstate) :
+  null_build_hyps_and X cf cf2 decls decls2 wg wp ws0 fs0 w0 s1 fl1 pre1 r1 w1 w20 s2 fl2 tr2 r2 w2 ->
+  ((forall b, ~ In (JStart b) tr2) /\ (forall b v, In (JVerdict b v) tr2 -> v = VClean) /\
+   (forall n t, ~ In (JWrite n t) tr2) /\ (forall b h, ~ In (JRecord b h) tr2) /\
+   (forall ok, In (JReturn ok) tr2 -> ok = Some true) /\ rs_tasks_run r2 = 0) /\ X.
+Proof.
+  intros (H1 & H2 & H3 & H4 & H5 & H6 & H7 & H8 & H9 & H10 & H11 & H12 & H13 & H14 & H15 & H16 & H17 &
+          H18 & H19 & H20 & H21 & H22 & HX).
+  split; [|exact HX].
+  exact (null_build_invocation_trace cf cf2 decls decls2 wg wp ws0 fs0 w0 s1 fl1 pre1 r1 w1 w20 s2 fl2
+           tr2 r2 w2
+           H1 H2 H3 H4 H5 H6 H7 H8 H9 H10 H11 H12 H13 H14 H15 H16 H17 H18 H19 H20 H21 H22).
+Qed.
+
+Lemma nv_hyps_hold :
+  null_build_hyps_and
+    ((* Work 1 recorded two steps, one of them with a discovered dependency; Work 2 is not empty *)
+    In (JRecord 0 8172001350084429517%N) nv_pre1 /\ In (JRecord 1 17431866117220885716%N) nv_pre1 /\
+    length (work_records nv_wg nv_w1 nv_pre1) = 2 /\ disc_of nv_w1 0 <> [] /\
+    In (JVerdict 0 VClean) nv_tr2 /\ In (JVerdict 1 VClean) nv_tr2 /\ In (JReturn (Some true)) nv_tr2 /\
+    (* and the premise the theorem used to carry is false here *)
+    ~ (forall ws1, log_is nv_w1 ws1 -> Forall in_bounds ws1 /\ table_small ws1))
+    nv_cf nv_cf [] [] nv_wg nv_wp [] nv_fs0 nv_w0 nv_s None nv_pre1 nv_r1 nv_w1 nv_w20 nv_s None nv_tr2
+    nv_r2 nv_w2.
+Proof.
+  unfold null_build_hyps_and.
+  split; [exact nv_graph_wf|]. split; [exact nv_graphs_agree|]. split; [reflexivity|]. split; [reflexivity|].
+  split. { intros b Lb. cbn in Lb. destruct b as [|[|b]]; [| |lia]; cbn; discriminate. }
+  split. { exists []. split; reflexivity. }
+  split; [constructor|]. split; [vm_compute; reflexivity|]. split; [vm_compute; reflexivity|].
+  split; [exact nv_wanted|].
+  split. { split; vm_compute; reflexivity. }
+  split. { cbn. split; [exists 0; split; now left|]. split; [exists 1; split; now left|exact I]. }
+  split. { intros b d _ Hd. assert (E : ws_disc nv_w0 = []) by (vm_compute; reflexivity).
+           unfold disc_of in Hd. rewrite E in Hd. destruct Hd. }
+  split. { intros b t rep n d Hin Hn Hne Hc. cbn [nv_pre1 In] in Hin.
+           repeat (destruct Hin as [Hin|Hin]; [try discriminate Hin|]); [| |destruct Hin].
+           - injection Hin as <- <- <-. cbn [reported_names In] in Hn.
+             destruct Hn as [<-|[<-|[]]]; vm_compute in Hc; injection Hc as <-; vm_compute; reflexivity.
+           - injection Hin as <- <- <-. destruct Hn. }
+  split. { intros b n Lb _ _ Hn X. cbn in Lb. destruct b as [|[|b]]; [| |lia]; vm_compute in Hn;
+           repeat (destruct Hn as [<-|Hn]; [vm_compute in X; discriminate X|]); destruct Hn. }
+  split; [exact nv_in_bounds|]. split; [exact nv_table_small|]. split; [vm_compute; reflexivity|].
+  split; [exact nv_wanted|]. split; [tauto|].
+  split. { split; vm_compute; reflexivity. }
+  split; [exact I|].
+  split; [cbn; tauto|]. split; [cbn; tauto|]. split; [now rewrite nv_records|].
+  split. { intro H. vm_compute in H. discriminate H. }
+  split; [cbn; tauto|]. split; [cbn; tauto|]. split; [cbn; tauto|].
+  exact nv_old_premise_fails.
+Qed.
+
+Lemma nv_hyps :
+  exists (cf cf2 : config) (decls decls2 : list (bytes * nat)) (wg : wgraph) (wp : wstate) (ws0 : list wr)
+         (fs0 : fsmap) (w0 : wstate) (s1 : bstates) (fl1 : option nat) (pre1 : list jitem) (r1 : rstate)
+         (w1 : wstate) (w20 : wstate) (s2 : bstates) (fl2 : option nat) (tr2 : list jitem) (r2 : rstate)
+         (w2 : wstate),
+  graph_wf (cf_graph cf) /\ graphs_agree (cf_graph cf) wg /\ cf_graph cf2 = cf_graph cf /\
+  cf_adopt cf = false /\
+  (forall b, b < length (g_builds (cf_graph cf)) -> wb_outs (get_wbuild wg b) <> []) /\
+  log_is wp ws0 /\ Forall in_bounds ws0 /\ table_small ws0 /\ load_state wg fs0 (ws_log wp) = Ok w0 /\
+  wanted (cf_graph cf) (bs_new (length (g_builds (cf_graph cf))) decls) s1 /\
+  jaccepted cf wg (run_init s1 fl1) w0 (pre1 ++ [JReturn (Some true)]) r1 w1 /\
+  writes_ok wg [] (pre1 ++ [JReturn (Some true)]) /\
+  (forall b d, get_state s1 b <> Unknown -> In d (disc_of w0 b) -> producer_of wg d = None) /\
+  (forall b t rep n d, In (JFinish b t rep) pre1 -> In n (reported_names rep) -> n <> [] ->
+                       canon n = Ok d -> producer_of wg d = None) /\
+  (forall b n, b < length (g_builds (cf_graph cf)) -> wb_cmdline (get_wbuild wg b) <> None ->
+               get_state s1 b <> Unknown ->
+               In n (wb_dirtying (get_wbuild wg b) ++ disc_of w1 b ++ wb_outs (get_wbuild wg b)) ->
+               fs_get (ws_fs w1) n <> None) /\
+  Forall in_bounds (work_records wg w1 pre1) /\ table_small (ws0 ++ work_records wg w1 pre1) /\
+  load_state wg (ws_fs w1) (ws_log w1) = Ok w20 /\
+  wanted (cf_graph cf) (bs_new (length (g_builds (cf_graph cf))) decls2) s2 /\
+  (forall b, get_state s2 b <> Unknown -> get_state s1 b <> Unknown) /\
+  jaccepted cf2 wg (run_init s2 fl2) w20 tr2 r2 w2 /\ writes_ok wg [] tr2 /\
+  (* Work 1 recorded two steps, one of them with a discovered dependency; Work 2 is not empty *)
+  In (JRecord 0 8172001350084429517%N) pre1 /\ In (JRecord 1 17431866117220885716%N) pre1 /\
+  length (work_records wg w1 pre1) = 2 /\ disc_of w1 0 <> [] /\
+  In (JVerdict 0 VClean) tr2 /\ In (JVerdict 1 VClean) tr2 /\ In (JReturn (Some true)) tr2 /\
+  (* and the premise the theorem used to carry is false here *)
+  ~ (forall ws1, log_is w1 ws1 -> Forall in_bounds ws1 /\ table_small ws1).
+Proof.
+  exists nv_cf, nv_cf, [], [], nv_wg, nv_wp, [], nv_fs0, nv_w0, nv_s, None, nv_pre1, nv_r1, nv_w1, nv_w20,
+         nv_s, None, nv_tr2, nv_r2, nv_w2.
+  exact nv_hyps_hold.
+Qed.
+
+(* the theorem applied to the instance *)
+Lemma nv_conclusion :
+  (forall b, ~ In (JStart b) nv_tr2) /\ (forall b v, In (JVerdict b v) nv_tr2 -> v = VClean) /\
+  (forall n t, ~ In (JWrite n t) nv_tr2) /\ (forall b h, ~ In (JRecord b h) nv_tr2) /\
+  (forall ok, In (JReturn ok) nv_tr2 -> ok = Some true) /\ rs_tasks_run nv_r2 = 0.
+Proof. exact (proj1 (null_build_hyps_use _ _ _ _ _ _ _ _ _ _ _ _ _ _ _ _ _ _ _ _ _ nv_hyps_hold)). Qed.
